@@ -147,6 +147,7 @@ type Machine struct {
 	syncMaps     map[*Value]*MapV
 	initProblems []string
 	tl           *threadLayer
+	ranges map[*sym.Term]urange
 
 	// tables
 	intrinsics map[string]intrinsic
@@ -288,6 +289,7 @@ func (m *Machine) RunPath(entry *ssa.Function, item workItem) (res *PathResult) 
 	m.havocCalls = 0
 	m.watchMaps = nil
 	m.depth = 0
+	m.ranges = nil
 	m.res = &PathResult{}
 	res = m.res
 	m.slv.Reset()
@@ -491,6 +493,9 @@ func (m *Machine) branch(c *sym.Term) bool {
 		return c.Val == 1
 	}
 	if v, ok := m.known[c]; ok {
+		return v
+	}
+	if v, ok := m.rangeDecide(c); ok {
 		return v
 	}
 	if m.pos < len(m.prefix) {
